@@ -686,6 +686,23 @@ def run_routes(case):
     lazy_synth.random = saved
 
 
+def gen_types(run):
+  from ..routes import struct_params
+  try:
+    T = route_table()
+  except Exception:
+    T = {}
+  for name, ent in T.items():
+    if struct_params(ent[1]):
+      yield (name,)
+
+
+def run_types(case):
+  from ..routes import struct_params, types_agree
+  ent = route_table()[case[0]]
+  return types_agree(case[0], ent[0], ent[1], ent[2], struct_params(ent[1]))
+
+
 KINDS = OrderedDict([
   ("line", Kind(gen_line, run_line, chunk=100, rule="durations x begin x end x finish x number type")),
   ("durations", Kind(gen_durations, run_duration, chunk=10, rule="ones/zeros/impulse/fades x durations incl. None/inf")),
@@ -704,4 +721,6 @@ KINDS = OrderedDict([
                     rule="length x ratio x order x zero x constant/stream ratio; non-trivial: fractional positions")),
   ("call-routes", Kind(gen_routes, run_routes, chunk=1,
                        rule="each function with every documented parameter set: all positional / all keyword / every split must agree")),
+  ("param-types", Kind(gen_types, run_types, chunk=1,
+                       rule="structural integer parameters given as integral float / Fraction / bool: same result wherever the type is accepted")),
 ])
